@@ -162,12 +162,17 @@ func c01Body(c *fw.Ctx) {
 	if !validateModel(c) {
 		return
 	}
-	k := 4
-	kb := 3
+	k, kb, t := 4, 3, 4
 	if c.Thorough() {
-		k, kb = 5, 4
+		k, kb, t = 5, 4, len(ProductSlots)
 	}
-	// raw, no base: prefix x Sigma^<=k, sharded on the enumeration index
+	forEachParseInput(c, k, kb, t, c.Thorough(), func(label, base, input string) { c01One(c, label, base, input) })
+}
+
+// forEachParseInput enumerates the declared (input, base) spaces shared by C01, C03, C04, C15 and C19:
+// raw-nobase = Prefixes x Sigma^<=k; raw-base = Sigma^<=kb x Bases; product = slot product with at most t
+// deviating slots x productBases; edit1-wpt = the WPT inputs (with their bases) and their edit-distance-1 ball.
+func forEachParseInput(c *fw.Ctx, k, kb, t int, longEdits bool, f func(label, base, input string)) {
 	c.Space("raw-nobase")
 	c.R.Spaces["raw-nobase"].Size = enum.RawSize(len(enum.General), k) * int64(len(Prefixes))
 	for _, pre := range Prefixes {
@@ -176,7 +181,7 @@ func c01Body(c *fw.Ctx) {
 			if !c.Mine() || c.Expired() {
 				return
 			}
-			c01One(c, "raw-nobase", "", pre+string(s))
+			f("raw-nobase", "", pre+string(s))
 		})
 	}
 	c.Space("raw-base")
@@ -187,14 +192,10 @@ func c01Body(c *fw.Ctx) {
 			if !c.Mine() || c.Expired() {
 				continue
 			}
-			c01One(c, "raw-base", b, in)
+			f("raw-base", b, in)
 		}
 	})
 	c.Space("product")
-	t := 4
-	if c.Thorough() {
-		t = len(ProductSlots)
-	}
 	c.Count("product_slot_deviation_bound", 0)
 	if c.Shard == 0 {
 		c.Count("product_slot_deviation_bound", int64(t))
@@ -205,7 +206,7 @@ func c01Body(c *fw.Ctx) {
 			if !c.Mine() || c.Expired() {
 				continue
 			}
-			c01One(c, "product", b, in)
+			f("product", b, in)
 		}
 	})
 	c.Space("edit1-wpt")
@@ -213,11 +214,11 @@ func c01Body(c *fw.Ctx) {
 		if !c.Mine() || c.Expired() {
 			continue
 		}
-		c01One(c, "edit1-wpt", v.Base, v.Input)
-		if len(v.Input) > 60 && !c.Thorough() {
+		f("edit1-wpt", v.Base, v.Input)
+		if len(v.Input) > 60 && !longEdits {
 			continue
 		}
 		base := v.Base
-		enum.Edits(v.Input, enum.General, func(s string) { c01One(c, "edit1-wpt", base, s) })
+		enum.Edits(v.Input, enum.General, func(s string) { f("edit1-wpt", base, s) })
 	}
 }
